@@ -85,6 +85,9 @@ func NewDirective(config DirectiveConfig) *Directive {
 		if dir.err = assertValidName(argName); dir.err != nil {
 			return dir
 		}
+		if dir.err = invariantf(argConfig != nil, `@%v args must be an object with argument names as keys.`, config.Name); dir.err != nil {
+			return dir
+		}
 		args = append(args, &Argument{
 			PrivateName:        argName,
 			PrivateDescription: argConfig.Description,
